@@ -185,6 +185,32 @@ def _value_tag(ctx):
                   f"{ci.name}.{attr} = <{kind}>",
                   f"setter stores VALUE={got[0]!r}, TZID={got[1]!r}; expected "
                   f"VALUE={exp_value!r}, TZID={zone!r}", ci.loc(), detail=str(got))
+    # re-assignment: the tags describe the value stored now, whatever was stored before
+    for cq, attr, name in (("cal.Event", "DTSTART", "DTSTART"), ("cal.Event", "DTEND", "DTEND"),
+                           ("cal.Todo", "DUE", "DUE"), ("cal.Event", "start", "DTSTART"),
+                           ("cal.Event", "end", "DTEND"), ("cal.Alarm", "TRIGGER", "TRIGGER")):
+        ci = m.cls(cq)
+        default = rfc.PROPERTY_TYPES[name][0]
+        seq = (("zoned", "utc"), ("date", "naive"), ("zoned", "date"), ("utc", "zoned")) \
+            if name != "TRIGGER" else (("utc", "duration"), ("duration", "utc"))
+        for first, second in seq:
+            comp = it.call(ClassVal(ci), [], {})
+            try:
+                it.setattr(comp, attr, kinds[first][0]())
+                it.setattr(comp, attr, kinds[second][0]())
+            except AbsRaise as e:
+                # e.g. an end of another type than the stored start: refused, fine
+                continue
+            except Unsupported as e:
+                raise AnalysisError(f"{cq}.{attr} = <{first}> then <{second}>: {e}")
+            got = params_of(it, comp.items.get(name))
+            mk, rfc_type, zone = kinds[second]
+            exp_value = rfc_type if rfc_type != default else None
+            ctx.check((got[0] or None) == exp_value and got[1] == zone, "C02/VALUE-TAG",
+                      f"{ci.name}.{attr} = <{first}> then <{second}>",
+                      f"after re-assigning, the stored value carries VALUE={got[0]!r}, TZID={got[1]!r}; "
+                      f"the value now stored needs VALUE={exp_value!r}, TZID={zone!r} (parameters of the "
+                      f"previous value leak onto the new one)", ci.loc(), detail=str(got))
     ctx.extra["value_tag_cases"] = n
 
 
